@@ -676,6 +676,8 @@ class EventManager(MpfController):
 
         # all handlers may have been removed in the meantime
         if event not in self.registered_handlers:
+            if callback:
+                callback(**kwargs)
             return
 
         # Now let's call the handlers one-by-one, including any kwargs
